@@ -43,6 +43,8 @@ ids 300..309 are multipath keys with 2 derivation paths, 310..319 with 3.
   J mono <ctx> <r> <p> <ast> <vr> <vp>    ok iff r is a tightening of p and (accepted under r ⇒
                                           accepted under p)
   J vp-order <p> <q> <intersect> <entails> ok iff <intersect> is the meet and <entails> = (p ≤ q)
+  J limitsize <ctx> <L> <ast> <with> <without>   as `J limit script_size`, the figure being the length
+                                          of the script the Lean side encodes from <ast> (real length)
   J t4 <class> <entry> <ast> <desc> <ms>  ok unless the descriptor parser accepted and the
                                           miniscript parser with `Ctx::CONSENSUS` rejected
 -/
@@ -287,6 +289,13 @@ def opsValidate (t : Tables) (kind op : String) (args : List String) : Option St
   | "C", "sortedmulti-new", [ctx, k, keys, _entry] => do
     let ctx ← parseCtx ctx; let k ← k.toNat?; let ks ← (keys.splitOn ",").mapM String.toNat?
     pure (if acceptsSortedMulti t.keyEnv (keyInfoOf t) ctx k ks then "ok" else "ERR")
+  | "J", "limitsize", [ctx, l, ast, withV, withoutV] => do
+    let ctx ← parseCtx ctx; let l ← parseLimit l; let ms ← parseAst ast
+    -- the REAL figure: the length of the script this side encodes
+    let real := (encodeBytes t.keyEnv ctx ms).length
+    let expectReject := isErr withV || decide (real > l)
+    pure (if isErr withoutV == expectReject then "ok"
+          else if isErr withoutV then "bad:rejected-within-real-size" else "bad:over-real-size-accepted")
   | "J", "t4", [_class, _entry, _ast, desc, msv] =>
     some (if !isErr desc && isErr msv then "bad:descriptor-accepts-what-consensus-params-reject" else "ok")
   | _, _, _ => none
